@@ -196,11 +196,12 @@ func refLocation(tz, def string) *time.Location {
 
 func newRefJC(j JC, p Pop, t0 time.Time) *refJC {
 	r := &refJC{name: j.Name, enabled: !j.NoCron && !j.Disabled, loc: refLocation(j.TZ, p.DefaultTZ)}
+	// API objects carry timestamps with second precision (metav1.Time): truncate like the API does.
 	if j.NotBefore != nil {
-		r.notBefore = t0.Add(time.Duration(*j.NotBefore) * time.Second)
+		r.notBefore = t0.Add(time.Duration(*j.NotBefore) * time.Second).Truncate(time.Second)
 	}
 	if j.NotAfter != nil {
-		r.notAfter = t0.Add(time.Duration(*j.NotAfter) * time.Second)
+		r.notAfter = t0.Add(time.Duration(*j.NotAfter) * time.Second).Truncate(time.Second)
 	}
 	parser := cron.NewParserFromConfig(p.cronConfig())
 	for _, e := range j.Exprs {
